@@ -51,8 +51,6 @@ type c43Ent struct {
 	kind int
 }
 
-func (e c43Ent) dirLike() bool { return e.kind == c43Dir }
-
 var c43Core = []c43Ent{
 	{"a b", c43File}, {"a'b", c43Exe}, {"a\"b", c43File}, {"$a", c43Exe}, {"*", c43File}, {"~x", c43Exe},
 	{".h", c43File}, {"é", c43Exe}, {"a#b", c43File}, {"a=b", c43Exe}, {"d", c43Dir}, {"-x", c43File},
@@ -114,8 +112,6 @@ const (
 	c43DQ
 	c43Tilde
 )
-
-var c43StyleName = []string{"bare", "sq", "dq", "tilde"}
 
 // characters whose meaning inside a bareword is documented without
 // reservation, in every expression context
@@ -596,8 +592,6 @@ func (w *c43Worker) evalBytes(code string) (vs []any, bs string, err error, pan 
 	v, b := collect()
 	return v, string(b), err, pan
 }
-
-func c43Shown(it any) string { return "" }
 
 func c43Strs(vs []any) ([]string, bool) {
 	out := make([]string, len(vs))
